@@ -147,22 +147,44 @@ VInv(m) ==
 \* geometry: physical coordinate c (c = 1 is x, the FIRST argument of a function of physical coordinates)
 \*           X_c = sum_k A[c][k] * xi_k + b[c],   xi_k the parameter of knot-vector axis k.
 \* Without geometry a function of the parameters receives them in reversed axis order (x = last axis).
-IdGeo(d) == [A |-> [c \in 1..d |-> [k \in 1..d |-> IF k = d + 1 - c THEN 1 ELSE 0]], b |-> [c \in 1..d |-> 0], id |-> TRUE]
+\* Bilinear maps add  B[c] * xi_1 * xi_2  to X_c (non-constant Jacobian determinant: the weight of the L2 product).
+Geo(A, b, B) == [A |-> A, b |-> b, B |-> B, id |-> FALSE]
+IdGeo(d) == [A |-> [c \in 1..d |-> [k \in 1..d |-> IF k = d + 1 - c THEN 1 ELSE 0]], b |-> [c \in 1..d |-> 0],
+             B |-> [c \in 1..d |-> 0], id |-> TRUE]
 GeoChoices(d) ==
-  IF d = 1 THEN <<IdGeo(1), [A |-> <<<<2>>>>, b |-> <<-1>>, id |-> FALSE], [A |-> <<<<-1>>>>, b |-> <<3>>, id |-> FALSE]>>
+  IF d = 1 THEN <<IdGeo(1), Geo(<<<<2>>>>, <<-1>>, <<0>>), Geo(<<<<-1>>>>, <<3>>, <<0>>)>>
   ELSE IF d = 2 THEN
      <<IdGeo(2),
-       [A |-> <<<<1, 1>>, <<1, 0>>>>, b |-> <<0, 1>>, id |-> FALSE],       \* shear  (x = xi_1 + xi_2, y = xi_1 + 1)
-       [A |-> <<<<0, 2>>, <<1, 0>>>>, b |-> <<1, 0>>, id |-> FALSE],       \* anisotropic scaling + shift
-       [A |-> <<<<1, 2>>, <<-1, 1>>>>, b |-> <<0, 2>>, id |-> FALSE]>>     \* det = 3
+       Geo(<<<<1, 1>>, <<1, 0>>>>, <<0, 1>>, <<0, 0>>),        \* shear  (x = xi_1 + xi_2, y = xi_1 + 1)
+       Geo(<<<<0, 2>>, <<1, 0>>>>, <<1, 0>>, <<0, 0>>),        \* anisotropic scaling + shift
+       Geo(<<<<1, 2>>, <<-1, 1>>>>, <<0, 2>>, <<0, 0>>),       \* det = 3
+       Geo(<<<<0, 2>>, <<3, 0>>>>, <<0, 0>>, <<0, 1>>),        \* bilinear: x = 2 xi_2, y = 3 xi_1 + xi_1 xi_2
+       Geo(<<<<1, 2>>, <<2, 0>>>>, <<1, 0>>, <<1, 0>>),        \* bilinear: x = xi_1 + 2 xi_2 + 1 + xi_1 xi_2, y = 2 xi_1
+       Geo(<<<<1, 0>>, <<1, 2>>>>, <<0, 0>>, <<0, 0>>),        \* the other orientation (x along the first axis)
+       Geo(<<<<2, 0>>, <<0, 3>>>>, <<0, 0>>, <<1, 0>>)>>       \* bilinear, other orientation: x = 2 xi_1 + xi_1 xi_2, y = 3 xi_2
   ELSE
      <<IdGeo(3),
-       [A |-> <<<<0, 0, 1>>, <<0, 1, 1>>, <<1, 0, 0>>>>, b |-> <<0, 0, 1>>, id |-> FALSE],
-       [A |-> <<<<0, 1, 2>>, <<0, 1, 0>>, <<2, 0, 0>>>>, b |-> <<1, 0, 0>>, id |-> FALSE]>>
+       Geo(<<<<0, 0, 1>>, <<0, 1, 1>>, <<1, 0, 0>>>>, <<0, 0, 1>>, <<0, 0, 0>>),
+       Geo(<<<<0, 1, 2>>, <<0, 1, 0>>, <<2, 0, 0>>>>, <<1, 0, 0>>, <<0, 0, 0>>),
+       Geo(<<<<0, 0, 1>>, <<0, 2, 0>>, <<2, 0, 0>>>>, <<0, 0, 0>>, <<0, 0, 1>>),    \* z = 2 xi_1 + xi_1 xi_2
+       Geo(<<<<1, 0, 0>>, <<0, 1, 0>>, <<0, 0, 2>>>>, <<0, 1, 0>>, <<0, 0, 0>>),    \* the other orientation
+       Geo(<<<<1, 0, 0>>, <<0, 2, 0>>, <<0, 0, 1>>>>, <<0, 0, 0>>, <<1, 0, 0>>)>>   \* x = xi_1 + xi_1 xi_2, other orientation
 Det(A) == IF Len(A) = 1 THEN A[1][1]
           ELSE IF Len(A) = 2 THEN A[1][1] * A[2][2] - A[1][2] * A[2][1]
           ELSE A[1][1] * (A[2][2] * A[3][3] - A[2][3] * A[3][2]) - A[1][2] * (A[2][1] * A[3][3] - A[2][3] * A[3][1])
                + A[1][3] * (A[2][1] * A[3][2] - A[2][2] * A[3][1])
+\* the map and its Jacobian at an integer parameter point xi (sequence over the axes)
+GeoX(geo, xi) == [c \in 1..Len(geo.b) |->
+                   ISum([k \in 1..Len(xi) |-> geo.A[c][k] * xi[k]]) + geo.b[c]
+                   + (IF Len(xi) >= 2 THEN geo.B[c] * xi[1] * xi[2] ELSE 0)]
+GeoJac(geo, xi) == [c \in 1..Len(geo.b) |-> [k \in 1..Len(xi) |->
+                   geo.A[c][k] + (IF Len(xi) >= 2 /\ k = 1 THEN geo.B[c] * xi[2]
+                                  ELSE IF Len(xi) >= 2 /\ k = 2 THEN geo.B[c] * xi[1] ELSE 0)]]
+\* |det J| is a polynomial of degree <= 1 per variable whose sign is constant iff it is at the corners
+Corners(dirs) == LET RECURSIVE Cs(_)
+                     Cs(k) == IF k = 0 THEN {<<>>} ELSE {Append(t, x) : t \in Cs(k - 1), x \in {dirs[k].kv[1], dirs[k].kv[Len(dirs[k].kv)]}}
+                 IN Cs(Len(dirs))
+GeoSign(geo, dirs) == LET c0 == CHOOSE t \in Corners(dirs) : TRUE IN IF Det(GeoJac(geo, c0)) > 0 THEN 1 ELSE -1
 
 \* integer polynomial of total degree <= m in d variables (coefficient tensor of shape (m+1)^d)
 GenPoly(d, m, s) ==
@@ -172,9 +194,25 @@ GenPoly(d, m, s) ==
 PullBack(a, geo, m) ==
   LET d  == Len(geo.b)
       Vi == VInv(m)
-      vals == Mk([k \in 1..d |-> m + 1],
-                 LAMBDA xi : PolyEval(a, [c \in 1..d |-> R(ISum([k \in 1..d |-> geo.A[c][k] * xi[k]]) + geo.b[c])]))
+      vals == Mk([k \in 1..d |-> m + 1], LAMBDA xi : LET X == GeoX(geo, xi) IN PolyEval(a, [c \in 1..d |-> R(X[c])]))
   IN ModeAll(vals, [k \in 1..d |-> Vi])
+\* coefficient tensor (shape (m+2)^d) of  |det J| * (f o X)
+WeightedPullBack(a, geo, sgn, m) ==
+  LET d  == Len(geo.b)
+      Vi == VInv(m + 1)
+      vals == Mk([k \in 1..d |-> m + 2],
+                 LAMBDA xi : LET X == GeoX(geo, xi) IN
+                             Mul(R(sgn * Det(GeoJac(geo, xi))), PolyEval(a, [c \in 1..d |-> R(X[c])])))
+  IN ModeAll(vals, [k \in 1..d |-> Vi])
+\* coefficient tensor (shape 2^d) of |det J|
+WeightPoly(geo, sgn) ==
+  LET d == Len(geo.b) IN
+  ModeAll(Mk([k \in 1..d |-> 2], LAMBDA xi : R(sgn * Det(GeoJac(geo, xi)))), [k \in 1..d |-> VInv(1)])
+\* int xi^q B_i B_j
+WMass(kv, p, P, q) ==
+  LET bp == Breaks(kv)  n == NDofs(kv, p) IN
+  TLCEval([i \in 1..n |-> [j \in 1..n |->
+     SumSeq([s \in 1..(Len(bp) - 1) |-> PInt(PMul(PShiftMono(bp[s], q), PMul(P[i][s], P[j][s])), bp[s + 1] - bp[s])])]])
 
 MkCase(dt, v) ==
   LET d    == Len(dt)
@@ -186,7 +224,7 @@ MkCase(dt, v) ==
                      custom == (Hash(s, 40 + k) % 3 = 0) /\ p > 0
                      nodes == IF custom THEN Shifted(g) ELSE g
                  IN [p |-> p, kv |-> kv, n |-> NDofs(kv, p), custom |-> custom, nodes |-> nodes,
-                     P |-> P, C |-> Colloc(kv, p, P, nodes), M |-> MassMat(kv, p, P)]]
+                     P |-> P, C |-> Colloc(kv, p, P, nodes), M |-> MassMat(kv, p, P), M1 |-> WMass(kv, p, P, 1)]]
       ns   == [k \in 1..d |-> dirs[k].n]
       pmin == FoldLeft(LAMBDA a, k : IF dirs[k].p < a THEN dirs[k].p ELSE a, 9, Ix(d))
       \* (1) data in the space by coefficients: scalar / vector / matrix valued
@@ -194,7 +232,7 @@ MkCase(dt, v) ==
       c    == Mk(ns \o vsh, LAMBDA mi : Val5(s, 100 + RavelIx(mi, ns \o vsh)))
       V    == ModeAll(RatT(c), [k \in 1..d |-> dirs[k].C])
       \* (2) polynomial data in physical coordinates + geometry
-      geo  == GeoChoices(d)[(Hash(s, 6) % Len(GeoChoices(d))) + 1]
+      geo  == GeoChoices(d)[((v + Hash(Salt + ISum(dt), 6)) % Len(GeoChoices(d))) + 1]   \* consecutive variants cycle
       mIn  == IF pmin > 3 THEN 3 ELSE pmin
       ncmp == 1 + (Hash(s, 8) % 2)
       fin  == [q \in 1..ncmp |-> GenPoly(d, mIn, s + 50 * q)]
@@ -204,42 +242,60 @@ MkCase(dt, v) ==
       mOut == mIn + 1
       fout == GenPoly(d, mOut, s + 7)
       gout == PullBack(fout, geo, mOut)
-      mom  == [k \in 1..d |-> Moments(dirs[k].kv, dirs[k].p, dirs[k].P, mOut)]
-      bout == ModeAll(gout, mom)
-  IN [dt |-> dt, v |-> v, d |-> d, dirs |-> dirs, ns |-> ns, vsh |-> vsh, c |-> c, V |-> V,
-      geo |-> geo, det |-> Det(geo.A), mIn |-> mIn, fin |-> fin, gin |-> gin, cin |-> cin,
-      mOut |-> mOut, fout |-> fout, gout |-> gout, mom |-> mom, bout |-> bout]
+      mom  == [k \in 1..d |-> Moments(dirs[k].kv, dirs[k].p, dirs[k].P, mOut + 1)]
+      momTo(m) == [k \in 1..d |-> [i \in 1..dirs[k].n |-> SubSeq(mom[k][i], 1, m + 1)]]
+      bout == ModeAll(gout, momTo(mOut))
+      \* (4) the geometry-weighted inner product: weight |det J| (a polynomial), weighted right-hand sides
+      sgn  == GeoSign(geo, dirs)
+      W    == WeightPoly(geo, sgn)
+      hin  == WeightedPullBack(fin[1], geo, sgn, mIn)
+      bwin == ModeAll(hin, momTo(mIn + 1))
+      hout == WeightedPullBack(fout, geo, sgn, mOut)
+      bwout == ModeAll(hout, momTo(mOut + 1))
+      \* the library integrates with max(p)+1 Gauss points per direction (exact up to degree 2 max(p) + 1): the
+      \* weighted right-hand side is integrated exactly iff  deg_k(|det J| * f o X) + p_k <= 2 max(p) + 1  for all k
+      pmax == FoldLeft(LAMBDA a, k : IF dirs[k].p > a THEN dirs[k].p ELSE a, 0, Ix(d))
+      degk(T, k) == FoldLeft(LAMBDA a, q : IF T.e[q] # Zero /\ Unravel(q - 1, T.sh)[k] > a THEN Unravel(q - 1, T.sh)[k] ELSE a,
+                             0, Ix(Len(T.e)))
+      wexact == \A k \in 1..d : degk(hout, k) + dirs[k].p <= 2 * pmax + 1
+  IN [built |-> FALSE, dt |-> dt, v |-> v, d |-> d, dirs |-> dirs, ns |-> ns, vsh |-> vsh, c |-> c, V |-> V,
+      geo |-> geo, sgn |-> sgn, W |-> W, mIn |-> mIn, fin |-> fin, gin |-> gin, cin |-> cin,
+      mOut |-> mOut, fout |-> fout, gout |-> gout, mom |-> mom, bout |-> bout, bwin |-> bwin, bwout |-> bwout,
+      wexact |-> wexact]
 
-Init == \E d \in Dims : \E dt \in DirTuples(d) : \E v \in 1..NVar : cs = MkCase(dt, v)
-Next == UNCHANGED cs
-Spec == Init /\ [][Next]_cs
+\* two steps per case, so that TLC's workers share the construction of the cases (initial states are
+\* computed by one thread): the initial state names the case, Build constructs it
+Init  == \E d \in Dims : \E dt \in DirTuples(d) : \E v \in 1..NVar : cs = [built |-> FALSE, dt |-> dt, v |-> v]
+Build == ~cs.built /\ cs' = [MkCase(cs.dt, cs.v) EXCEPT !.built = TRUE]
+Next  == Build
+Spec  == Init /\ [][Next]_cs
 
 -----------------------------------------------------------------------------
 (* invariants *)
 BasisOK ==      \* non-negative partition of unity at the nodes; Schoenberg-Whitney: B_j(node_j) > 0
-  \A k \in 1..cs.d :
+  cs.built => \A k \in 1..cs.d :
     LET D == cs.dirs[k] IN
     /\ Len(D.nodes) = D.n
     /\ \A r \in 1..D.n : SumSeq(D.C[r]) = One /\ \A j \in 1..D.n : ~Lt(D.C[r][j], Zero)
     /\ \A j \in 1..D.n : Lt(Zero, D.C[j][j])
     /\ \A j \in 1..(D.n - 1) : Lt(D.nodes[j], D.nodes[j + 1])
 MassOK ==       \* symmetric, row sums = int B_i = (t_{i+p+1} - t_i) / (p+1)
-  \A k \in 1..cs.d :
+  cs.built => \A k \in 1..cs.d :
     LET D == cs.dirs[k] IN
     /\ \A i, j \in 1..D.n : D.M[i][j] = D.M[j][i]
     /\ \A i \in 1..D.n : SumSeq(D.M[i]) = Q(D.kv[i + D.p + 1] - D.kv[i], D.p + 1)
 MomentOK ==     \* sum_i int x^k B_i = int x^k over the domain
-  \A k \in 1..cs.d :
+  cs.built => \A k \in 1..cs.d :
     LET D == cs.dirs[k]  a == D.kv[1]  b == D.kv[Len(D.kv)] IN
     \A q \in 0..cs.mOut :
       SumSeq([i \in 1..D.n |-> cs.mom[k][i][q + 1]]) = Q(IPow(b, q + 1) - IPow(a, q + 1), q + 1)
 MarsdenOK ==    \* the Marsden coefficients reproduce the monomials at every node
-  \A k \in 1..cs.d :
+  cs.built => \A k \in 1..cs.d :
     LET D == cs.dirs[k]  Mc == Marsden(D.kv, D.p, cs.mIn) IN
     \A q \in 0..cs.mIn : \A r \in 1..D.n :
       SumSeq([j \in 1..D.n |-> Mul(Mc[j][q + 1], D.C[r][j])]) = PowR(D.nodes[r], q)
 InSpaceOK ==    \* data in the space: interpolation conditions and normal equations hold exactly for cin
-  \A q \in 1..Len(cs.fin) :
+  cs.built => \A q \in 1..Len(cs.fin) :
     LET cin == cs.cin[q]
         atNodes == ModeAll(cin, [k \in 1..cs.d |-> cs.dirs[k].C])
         Mc   == ModeAll(cin, [k \in 1..cs.d |-> cs.dirs[k].M])
@@ -248,14 +304,29 @@ InSpaceOK ==    \* data in the space: interpolation conditions and normal equati
        /\ \A i \in 1..Len(atNodes.e) :
             LET mi == Unravel(i - 1, atNodes.sh)
                 xi == [k \in 1..cs.d |-> cs.dirs[k].nodes[mi[k] + 1]]
-                X  == [cc \in 1..cs.d |-> Add(SumSeq([k \in 1..cs.d |-> Mul(R(cs.geo.A[cc][k]), xi[k])]), R(cs.geo.b[cc]))]
+                X  == [cc \in 1..cs.d |-> Add(Add(SumSeq([k \in 1..cs.d |-> Mul(R(cs.geo.A[cc][k]), xi[k])]), R(cs.geo.b[cc])),
+                                              IF cs.d >= 2 THEN Mul(R(cs.geo.B[cc]), Mul(xi[1], xi[2])) ELSE Zero)]
             IN atNodes.e[i] = PolyEval(cs.fin[q], X)
 
+\* the same for the geometry-weighted inner product:  sum_e W_e (M^(e_1) x .. x M^(e_d)) cin = int |det J| (f o X) B
+TAdd(S, T) == [sh |-> S.sh, e |-> [i \in 1..Len(S.e) |-> Add(S.e[i], T.e[i])]]
+TScale(T, r) == [sh |-> T.sh, e |-> [i \in 1..Len(T.e) |-> Mul(T.e[i], r)]]
+WeightedApply(T) ==
+  FoldLeft(LAMBDA acc, q :
+             LET ex == Unravel(q - 1, cs.W.sh) IN
+             TAdd(acc, TScale(ModeAll(T, [k \in 1..cs.d |-> IF ex[k] = 0 THEN cs.dirs[k].M ELSE cs.dirs[k].M1]), cs.W.e[q])),
+           [sh |-> T.sh, e |-> [i \in 1..Len(T.e) |-> Zero]], Ix(Len(cs.W.e)))
+WeightedOK ==
+  cs.built =>
+    /\ WeightedApply(cs.cin[1]) = cs.bwin
+    /\ \A t \in Corners(cs.dirs) : cs.sgn * Det(GeoJac(cs.geo, t)) > 0      \* the map is regular, orientation constant
+    /\ cs.geo.B = [c \in 1..cs.d |-> 0] => \A q \in 2..Len(cs.W.e) : cs.W.e[q] = Zero
+
 EmitCase ==
-  Emit("CASE", [dt |-> cs.dt, v |-> cs.v, d |-> cs.d, ns |-> cs.ns, vsh |-> cs.vsh,
+  cs.built => Emit("CASE", [dt |-> cs.dt, v |-> cs.v, d |-> cs.d, ns |-> cs.ns, vsh |-> cs.vsh,
                 dirs |-> [k \in 1..cs.d |-> [p |-> cs.dirs[k].p, kv |-> cs.dirs[k].kv, n |-> cs.dirs[k].n,
                                              custom |-> cs.dirs[k].custom, nodes |-> cs.dirs[k].nodes,
-                                             M |-> cs.dirs[k].M]],
-                c |-> cs.c, V |-> cs.V, geo |-> cs.geo, det |-> cs.det, mIn |-> cs.mIn, mOut |-> cs.mOut,
-                fin |-> cs.fin, cin |-> cs.cin, fout |-> cs.fout, bout |-> cs.bout])
+                                             M |-> cs.dirs[k].M, M1 |-> cs.dirs[k].M1]],
+                c |-> cs.c, V |-> cs.V, geo |-> cs.geo, W |-> cs.W, mIn |-> cs.mIn, mOut |-> cs.mOut,
+                fin |-> cs.fin, cin |-> cs.cin, fout |-> cs.fout, bout |-> cs.bout, bwout |-> cs.bwout, wexact |-> cs.wexact])
 =============================================================================
